@@ -3,7 +3,9 @@
 Runtime monitor on the E6 engine, crash-point enumeration.  For every generated batch sequence and operation:
 
  run A     the REAL pipeline runs uninterrupted with its state exposed: with_state=True for rolling, window(n),
-           window(value), windowed groupby, expanding, ewm and groupby.mean; for groupby sum/count and the reductions
+           window(value), windowed groupby, expanding, ewm and groupby.mean (std of a window / expanding / windowed
+           groupby is var ** 0.5: its state is read from the twin var pipeline, because std with with_state=True raises
+           TypeError on every batch -- counted as std_with_state_raised_although_plain_std_emits, not a C12 violation); for groupby sum/count and the reductions
            sum/count the result IS the state; for the reductions mean/var/std the state is exposed the way the anchor
            names -- Stream.accumulate(aggregations.accumulator, agg=..., returns_state=True, with_state=True) on the same
            input.  The sink deep-copies (state, result) the moment it sees it: that copy is the checkpoint.
@@ -119,8 +121,13 @@ def gen_cases(rng, tier):
 # ---- state exposure ------------------------------------------------------------
 
 def exposure(op):
-    """how run A exposes its state: 'with_state' | 'result' | 'raw'"""
+    """how run A exposes its state: 'with_state' | 'result' | 'raw' | 'via-var'"""
     fam, agg = op['fam'], op['agg']
+    if agg == 'std' and fam in ('win', 'wgb', 'exp'):
+        # std() is var() ** 0.5: its state is Var's state.  With with_state=True the power is applied to the
+        # (state, result) tuple and every emit raises TypeError (recorded as evidence, see run_a), so the state
+        # is taken from the twin var() pipeline and the results from the plain std() pipeline.
+        return 'via-var'
     if fam == 'red':
         return 'result' if agg in ('sum', 'count') else 'raw'
     if fam == 'gb':
@@ -147,6 +154,20 @@ def run_a(case, ctx):
             results[k] = o
             if mode == 'result':
                 states[k] = copy.deepcopy(o)
+    if mode == 'via-var':
+        _, _, vtr = E.run_with_example_fallback(dict(case, op=dict(op, agg='var')), ctx, with_state=True, snapshot=True)
+        if vtr.build_error is not None:
+            return batches, None, None, None, vtr.build_error
+        for k in range(nb):
+            if vtr.errs[k] is None and len(vtr.outs[k]) == 1 and tr.errs[k] is None:
+                states[k] = vtr.outs[k][0][0]
+        _, _, ptr = E.run_with_example_fallback(case, ctx, with_state=True)
+        seen = 0
+        for k in range(nb):
+            seen += len(E.p_root(op, batches[k]))
+            if ptr.build_error is None and seen > 0 and ptr.errs[k] is not None and tr.errs[k] is None:
+                ctx.count('std_with_state_raised_although_plain_std_emits')
+                ctx.note('state_exposure_unusable', '%s with_state=True: %s' % (E.op_label(op), type(ptr.errs[k]).__name__))
     if mode == 'raw':
         raw_case = dict(case)
         _, _, rtr = E.run_with_example_fallback(raw_case, ctx, raw=True, snapshot=True)
